@@ -196,7 +196,7 @@ pub open spec fn word_or_mailbox_kind(k: Kind) -> bool {
 pub open spec fn same_counts_except(a: Seq<Effect>, b: Seq<Effect>, x1: Kind, x2: Kind, x3: Kind) -> bool {
     forall|k: Kind| word_or_mailbox_kind(k) && k != x1 && k != x2 && k != x3 ==> #[trigger] cnt(b, k) == cnt(a, k)
 }
-pub open spec fn delta(a: Seq<Effect>, b: Seq<Effect>, k: Kind) -> int { cnt(b, k) - cnt(a, k) }
+
 } // verus!
 // @include ../_common/effectlog.rs
 verus! {
